@@ -40,6 +40,11 @@ M = [
  ("cp-longest-unweighted", "hta/analyzers/critical_path_analysis.py", 'self.critical_path_nodes = nx.dag_longest_path(self, weight="weight")', 'self.critical_path_nodes = nx.dag_longest_path(self, weight="wt")', ["C09"]),
  ("cp-sync-guard", "hta/analyzers/critical_path_analysis.py", 'if end_node is None or gpu_node.ts > end_node.ts:', 'if end_node is None:', ["C08"]),
  ("cp-events-set", "hta/analyzers/critical_path_analysis.py", 'self.node_list[nid].ev_idx for nid in self.critical_path_nodes\n', 'self.node_list[nid].ev_idx for nid in self.critical_path_nodes[1:]\n', ["C09"]),
+ ("persist-attr", "hta/analyzers/critical_path_analysis.py", '    restored_instance.edge_to_event_map = pickled_obj.edge_to_event_map\n', '    restored_instance.edge_to_event_map = {}\n', ["C19"]),
+ ("persist-path", "hta/analyzers/critical_path_analysis.py", '    restored_instance.critical_path_nodes = pickled_obj.critical_path_nodes\n', '    restored_instance.critical_path_nodes = pickled_obj.critical_path_nodes[:-1]\n', ["C19"]),
+ ("overlay-mark", "hta/analyzers/critical_path_analysis.py", '            if ev_idx in critical_path_graph.critical_path_events_set:\n', '            if ev_idx + 1 in critical_path_graph.critical_path_events_set:\n', ["C20"]),
+ ("overlay-flow-tid", "hta/analyzers/critical_path_analysis.py", '            flow_events.append(get_flow_event(v, end_ev, e, flow_id, is_start=False))', '            flow_events.append(get_flow_event(v, start_ev, e, flow_id, is_start=False))', ["C20"]),
+ ("rank-update-clobber", "hta/common/trace_file.py", '            trace_data["distributedInfo"]["rank"] = rank\n', '            trace_data["distributedInfo"] = {"rank": rank}\n', ["C20"]),
  ("seq-minlen", "hta/analyzers/cuda_kernel_analysis.py", '& candidate_nodes["num_kernels"].ge(min_pattern_len)', '& candidate_nodes["num_kernels"].gt(min_pattern_len)', ["C16"]),
 ]
 
